@@ -180,6 +180,39 @@ class Broker(object):
             q.msgs.appendleft(msg)
             self.op("requeue", ch.node, queue=qname, uid=msg.uid, mid=msg.props.message_id)
 
+    def mark_prefetched(self, node):
+        """
+        Fault 'prefetched-unhandled' (enabled per run by the probability sim.crash_prefetch): RabbitMQ pushes up to
+        `prefetch` messages to a consumer ahead of their handling; they sit in the client's buffer, and when the process
+        dies the broker requeues all of them - handled or not - with redelivered=True.  At the crash of `node`, the
+        messages at the head of each queue it consumes from that are available and fit the consumer's remaining
+        window are therefore flagged redelivered with that probability (a prefix, in order: what was pushed was pushed
+        in queue order).  Returns the flagged messages.  Called once per crash, before the channels are closed.
+        """
+        p = getattr(self.sim, "crash_prefetch", 0.0)
+        out = []
+        if not p:
+            return out
+        for ch in self.chans:
+            if not ch.open or ch.node != node:
+                continue
+            for c in ch.consumers.values():
+                q = self.queues.get(c.queue)
+                if c.auto_ack or q is None:
+                    continue
+                window = len(q.msgs) if c.prefetch == 0 else max(0, c.prefetch - c.unacked)
+                for i, m in enumerate(q.msgs):
+                    if i >= window or m.available_at > self.sim.now or m.redelivered:
+                        break
+                    if self.sim.rng.random() >= p:
+                        break
+                    m.redelivered = True
+                    out.append((c.queue, m))
+                    self.sim.count("prefetched-unhandled")
+                    self.op("prefetched_requeue", node, queue=c.queue, uid=m.uid, mid=m.props.message_id)
+        self.prefetched_marked = getattr(self, "prefetched_marked", []) + out
+        return out
+
     def _cancel_consumer(self, c):
         q = self.queues.get(c.queue)
         if q is not None and c in q.consumers:
